@@ -484,7 +484,11 @@ def pytest_sessionfinish(session, exitstatus):
                     diff = file.diff()
                     if diff:
                         header()
-                        name = file.filename.relative_to(Path.cwd())
+                        try:
+                            name = file.filename.relative_to(Path.cwd())
+                        except ValueError:
+                            # pytest was started in a directory which does not contain the test file
+                            name = file.filename
                         console().print(
                             Panel(
                                 Syntax(diff, "diff", theme="ansi_light"),
